@@ -15,7 +15,7 @@ import (
 func verifRefs(data any) []*verifExpr {
 	switch d := data.(type) {
 	case *verifExpr:
-		return []*verifExpr{d}
+		return append([]*verifExpr{d}, d.also...)
 	case *infer.OptionalExpression, *infer.OneOfExpression:
 		return nil
 	case map[any]any:
